@@ -301,3 +301,18 @@ func VHLoadState(f *FSM, maxN, maxK, maxV int) (keys, vals [][]byte) {
 	r := vhArbitraryStateSys(f.pebble.Load(), maxN, maxK, maxV, true)
 	return r.keys, r.vals
 }
+
+// VHSummary: number of user pairs, applied index and leader index (through the real read paths).
+func VHSummary(f *FSM) (count int64, index, leader uint64) {
+	return vhWhole(f).Count, vhReadIndex(f, false), vhReadIndex(f, true)
+}
+
+// VHHasKey reports whether an exact stored user key exists (incl. the empty key, which the API cannot address).
+func VHHasKey(f *FSM, k []byte) bool {
+	_, closer, err := f.pebble.Load().Get(vhEnc(k))
+	if err != nil {
+		return false
+	}
+	closer.Close()
+	return true
+}
